@@ -2,6 +2,8 @@
 the real parsers (B), compare every execution with the oracles (C).  One run serves several
 properties; its summary is cached under .work/runs/<key>/ keyed by repo + machinery content."""
 import hashlib
+import sys
+sys.setrecursionlimit(20000)
 import json
 import os
 import pickle
@@ -43,6 +45,8 @@ def make_units(profile, seed, tier, index, opts):
         variants = memo_variants(g, rnd)
     if opts.get("inline_variants"):
         variants = inline_variants(g)
+    if opts.get("derive_variants"):
+        variants = derive_variants(g)
     lay = random.Random("%s/%s/%d/layout" % (seed, profile, index))
     units = []
     t = TIERS[tier]
@@ -81,6 +85,22 @@ def memo_variants(g, rnd):
     for k in range(2):
         sub = {c for c in cand if rnd.random() < 0.5}
         out.append(("sub%d" % k, with_memo(sub)))
+    return out
+
+
+def derive_variants(g):
+    import copy
+    out = [("default", g)]
+    g2 = copy.deepcopy(g)
+    g2.derives = ["Debug", "Clone", "PartialEq", "Eq"]
+    out.append(("eq", g2))
+    if not any(r.kind == "rule" and (r.has("memoize") or r.has("leftrec")) for r in g.rules):
+        g3 = copy.deepcopy(g)
+        g3.derives = ["Debug"]
+        out.append(("debugonly", g3))
+        g4 = copy.deepcopy(g)
+        g4.derives = []
+        out.append(("none", g4))
     return out
 
 
@@ -138,20 +158,33 @@ def phaseA_worker(args):
                 continue
             cases = []
             ci = 0
+            ndropped = 0
             for rule, ins in u["inputs"].items():
                 for s in ins:
                     try:
                         steps = m.parse(rule, s)["steps"]
                     except (Drop, rdebug.Unsupported, RecursionError):
-                        steps = 200000
+                        # too expensive / dynamically ill-formed / unsupported: never run, never judged
+                        ndropped += 1
+                        continue
                     cases.append(("u%dc%d" % (uid, ci), rule, s, 200 * steps + 100000))
                     ci += 1
             u["cases"] = cases
             with open(os.path.join(rundir, "u%d.pkl" % uid), "wb") as f:
                 pickle.dump(u, f)
-            out.append({"uid": uid, "base": index, "variant": u["variant"], "ncases": len(cases),
-                        "ctx": u["grammar"].user_ctx,
-                        "exports": [(r.name, rule_has_position(r, types)) for r in u["grammar"].exported()]})
+            dv = u["grammar"].derives
+            runnable = dv is None or "Debug" in dv
+            extra = ""
+            if opts.get("assert_types"):
+                import typeassert
+                extra = typeassert.assertion_module(u["grammar"], dv)
+                u["shape"] = hashlib.sha256(repr(typeassert.shape_signature(u["grammar"])).encode()).hexdigest()[:12]
+                u["ntriv"] = typeassert.nontrivial(u["grammar"])
+            out.append({"uid": uid, "base": index, "variant": u["variant"], "ncases": len(cases) if runnable else 0, "dropped_cases": ndropped,
+                        "ctx": u["grammar"].user_ctx, "extra_rust": extra,
+                        "derives": "-" if dv is None else ("=" if not dv else ",".join(dv)),
+                        "runnable": runnable, "shape": u.get("shape"), "ntriv": u.get("ntriv"),
+                        "exports": [(r.name, rule_has_position(r, types)) for r in u["grammar"].exported()] if runnable else []})
     return out
 
 
@@ -181,7 +214,7 @@ def phaseC_worker(args):
             u = pickle.load(f)
         logp = os.path.join(rundir, "u%d.log.json" % uid)
         if not os.path.exists(logp):
-            out.append({"uid": uid, "skipped": "no log"})
+            out.append({"uid": uid, "skipped": "no log", "compile_only": not u.get("cases")})
             continue
         with open(logp) as f:
             obs = json.load(f)
@@ -296,7 +329,7 @@ def run_profile(profile, seed, tier, opts=None, flavor="dev-hooks", modes=7, sca
     tA = time.time()
     # ---- phase B: real P-gen
     jobs = [("u%d" % u["uid"], os.path.join(rundir, "g%d.ebnf" % u["uid"]), os.path.join(rundir, "g%d.rs" % u["uid"]),
-             "-", "vfrt::Ctx" if u["ctx"] else "-") for u in units]
+             u.get("derives", "-"), "vfrt::Ctx" if u["ctx"] else "-") for u in units]
     gres = build.run_cgdrv("gen", jobs, rundir)
     pgen_fail = []
     good = []
@@ -312,7 +345,7 @@ def run_profile(profile, seed, tier, opts=None, flavor="dev-hooks", modes=7, sca
     for i in range(0, len(good), bs):
         grp = good[i:i + bs]
         batches.append(("b%d" % (i // bs), [{"gidx": u["uid"], "code_path": os.path.join(rundir, "g%d.rs" % u["uid"]),
-                                            "exports": u["exports"], "ctx": u["ctx"]} for u in grp]))
+                                            "exports": u["exports"], "ctx": u["ctx"], "extra_rust": u.get("extra_rust", "")} for u in grp]))
     crate = os.path.join(rundir, "crate")
     tgt = build.tool_vfrt(flavor)
     compile_fail = []
@@ -367,10 +400,15 @@ def run_profile(profile, seed, tier, opts=None, flavor="dev-hooks", modes=7, sca
             for u in us:
                 with open(os.path.join(rundir, "u%d.pkl" % u["gidx"]), "rb") as pf:
                     uu = pickle.load(pf)
+                if not u["exports"]:
+                    continue
                 for (cid, rule, inp, budget) in uu["cases"]:
                     f.write("%s\t%d\t%s\t%d\t%d\t%s\n" % (cid, u["gidx"], rule, modes, budget, build.hexs(inp)))
                     n += 1
         logp = os.path.join(rundir, name + ".log")
+        if n == 0:
+            os.remove(bins[name])
+            return [], False, 0
         cr, to = build.run_batch_bin(bins[name], cases_path, logp, n)
         obs = build.parse_log(logp)
         # split per unit
@@ -404,6 +442,25 @@ def run_profile(profile, seed, tier, opts=None, flavor="dev-hooks", modes=7, sca
     per_unit.sort(key=lambda r: r["uid"])
     tC = time.time()
     summary = summarise(profile, seed, tier, opts, units, per_unit, pgen_fail, compile_fail, gen_errors, crashes, timeouts)
+    bad_uids = {c.get("uid") for c in compile_fail}
+    summary["unit_meta"] = [{"uid": u["uid"], "variant": u["variant"], "shape": u.get("shape"), "ntriv": u.get("ntriv"),
+                             "compiled": (u["uid"] in set(good_uids)), "runnable": u.get("runnable", True)}
+                            for u in units] if opts.get("assert_types") else None
+    for c in compile_fail:
+        if c.get("uid") is not None:
+            try:
+                with open(os.path.join(rundir, "g%d.ebnf" % c["uid"]), encoding="utf-8") as f:
+                    c["grammar_text"] = f.read()
+            except OSError:
+                pass
+    for c in pgen_fail:
+        try:
+            with open(os.path.join(rundir, "g%d.ebnf" % c["uid"]), encoding="utf-8") as f:
+                c["grammar_text"] = f.read()
+        except OSError:
+            pass
+    summary["compile_fail"] = compile_fail[:40]
+    summary["pgen_fail"] = pgen_fail[:40]
     summary["timing"] = {"A": tA - t0, "B": tB - tA, "run": tR - tB, "C": tC - tR, "total": tC - t0}
     summary["key"] = key
     summary["rundir"] = rundir
@@ -473,6 +530,8 @@ def summarise(profile, seed, tier, opts, units, per_unit, pgen_fail, compile_fai
                                   "expected": list(rv)[:3], "observed": list(ov)[:3],
                                   "grammar_text": vs[nm]["text"], "grammar_text_ref": ref["text"],
                                   "msg": "variants %s and %s of the same grammar disagree" % (names[0], nm)})
+    if sum(u.get("dropped_cases", 0) for u in units):
+        counters["model_drop:case not run (reference evaluation too expensive or ill-formed)"] = sum(u.get("dropped_cases", 0) for u in units)
     return {"profile": profile, "seed": seed, "tier": tier, "opts": opts,
             "units": len(units), "units_run": len([r for r in per_unit if "skipped" not in r]),
             "generator_errors": gen_errors[:5], "n_generator_errors": len(gen_errors),
